@@ -20,6 +20,10 @@ class FuncV:
 PYTYPES = {"str": "py.str", "int": "py.int", "float": "py.float", "bool": "py.bool", "bytes": "py.bytes"}
 
 
+from .types import _Prim as T_Prim
+from .smt import sort_name
+
+
 class Model:
     def __init__(self):
         self.classes = {}        # class name -> {attr: type string, '_forward': attr, '_bases': [..], '_truthy': 'always'}
@@ -151,6 +155,42 @@ class Model:
                 if x.ty is PY and isinstance(x.py, tuple) and x.py and x.py[0] == "pytype":
                     return z3.BoolVal(x.py[1] == y.py[1])
                 return self.eq_pytype(ex, x, y.py[1], identity)
+        if not identity:
+            r = self.container_eq(ex, a, b)
+            if r is not None:
+                return r
+        return None
+
+    def container_eq(self, ex, a, b):
+        """`==` between two sets / two sequences of primitives is Python's structural equality, not identity of the objects:
+        an uninterpreted relation tied to extensional equality by a global axiom (both directions)."""
+        ta = a.ty.inner if isinstance(a.ty, OptT) else a.ty
+        tb = b.ty.inner if isinstance(b.ty, OptT) else b.ty
+        if isinstance(ta, SetT) and isinstance(tb, SetT) and ta.elem == tb.elem:
+            es = ta.elem.sort()
+            key = "set.eq." + sort_name(es)
+            rel = fn(key, Ref, Ref, z3.BoolSort())
+            if key not in self._boxed:
+                self._boxed.add(key)
+                p, q = z3.Consts("seqa seqb", Ref)
+                x = z3.Const("seqx", es)
+                self.add_axiom(z3.ForAll([p, q], rel(p, q) == z3.ForAll([x], set_mem(p, x, ta.elem) == set_mem(q, x, ta.elem)), patterns=[rel(p, q)]))
+                self.add_axiom(z3.ForAll([p], rel(p, p), patterns=[rel(p, p)]))
+            both = z3.And(a.term != NONE, b.term != NONE)
+            return z3.Or(z3.And(a.term == NONE, b.term == NONE), z3.And(both, rel(a.term, b.term)))
+        if isinstance(ta, SeqT) and isinstance(tb, SeqT) and ta.elem == tb.elem and isinstance(ta.elem, T_Prim):
+            es = ta.elem.sort()
+            key = "seq.eq." + sort_name(es)
+            rel = fn(key, Ref, Ref, z3.BoolSort())
+            if key not in self._boxed:
+                self._boxed.add(key)
+                p, q = z3.Consts("sqa sqb", Ref)
+                i = z3.Int("sqi")
+                self.add_axiom(z3.ForAll([p, q], rel(p, q) == z3.And(seq_len(p) == seq_len(q), z3.ForAll([i], z3.Implies(
+                    z3.And(0 <= i, i < seq_len(p)), seq_at(p, i, ta.elem) == seq_at(q, i, ta.elem)))), patterns=[rel(p, q)]))
+                self.add_axiom(z3.ForAll([p], rel(p, p), patterns=[rel(p, p)]))
+            both = z3.And(a.term != NONE, b.term != NONE)
+            return z3.Or(z3.And(a.term == NONE, b.term == NONE), z3.And(both, rel(a.term, b.term)))
         return None
 
     def eq_pytype(self, ex, x, tname, identity):
@@ -189,6 +229,15 @@ class Model:
             y = z3.Const("sdy", a.ty.elem.sort())
             st.assume(n.term != NONE)
             st.assume(z3.ForAll([y], set_mem(n.term, y, a.ty.elem) == z3.And(set_mem(a.term, y, a.ty.elem), z3.Not(set_mem(b.term, y, a.ty.elem)))))
+            return n
+        if isinstance(op, (ast.BitOr, ast.Sub)) and isinstance(a.ty, OptT) and isinstance(a.ty.inner, SetT):
+            ex.safety("not None before set operator", st, a.term != NONE, None, "TypeError")
+            a = V(a.term, a.ty.inner)
+        if isinstance(op, ast.BitOr) and isinstance(a.ty, SetT) and isinstance(b.ty, SetT) and a.ty.elem == b.ty.elem:
+            n = V(fresh("setunion", Ref), a.ty)
+            y = z3.Const("suy", a.ty.elem.sort())
+            st.assume(n.term != NONE)
+            st.assume(z3.ForAll([y], set_mem(n.term, y, a.ty.elem) == z3.Or(set_mem(a.term, y, a.ty.elem), set_mem(b.term, y, a.ty.elem))))
             return n
         if isinstance(op, ast.BitOr) and isinstance(a.ty, SetT):
             items = None
@@ -1018,6 +1067,8 @@ class Model:
         if not (isinstance(e.key, ast.Name) and e.key.id == kname):
             return None
         kk = fresh("dk", mty.key.sort())
+        from .smt import FRESH_LOG, lift_fresh
+        mark = len(FRESH_LOG)
         s2 = st.fork()
         s2.env[kname] = V(kk, mty.key)
         s2.env[vname] = V(map_get(m.term, kk, mty.key, mty.val), mty.val)
@@ -1039,11 +1090,14 @@ class Model:
         rty = MapT(mty.key, val.ty)
         n = V(fresh("dictcomp", Ref), rty)
         st.assume(n.term != NONE)
-        for f in s2.pc[n0:]:
+        # values created while evaluating the element expression (results of calls by contract ...) depend on the key
+        lifted = lift_fresh(mark, [kk], list(s2.pc[n0:]) + [cond, val.term])
+        facts, cond, vterm = lifted[:-2], lifted[-2], lifted[-1]
+        for f in facts:
             st.assume(z3.ForAll([kk], z3.Implies(present, f)))
         st.facts |= s2.facts
         st.assume(z3.ForAll([kk], map_has(n.term, kk, rty.key) == z3.And(present, cond)))
-        st.assume(z3.ForAll([kk], z3.Implies(z3.And(present, cond), map_get(n.term, kk, rty.key, rty.val) == val.term)))
+        st.assume(z3.ForAll([kk], z3.Implies(z3.And(present, cond), map_get(n.term, kk, rty.key, rty.val) == vterm)))
         st.assume((seq_len(map_keys(n.term)) > 0) == z3.Exists([kk], z3.And(present, cond)))
         st.assume(seq_len(map_keys(n.term)) >= 0)
         return n
@@ -1427,21 +1481,25 @@ def map_seq(model, ex, gen, st):
         return None
     _, n, at = el
     j = fresh("mj", z3.IntSort())
+    from .smt import FRESH_LOG, lift_fresh
+    mark = len(FRESH_LOG)
     s3 = s2.fork()
     ex.assign(comp.target, at(j), s3)
     n0 = len(s3.pc)
     val = ex.ev(gn.elt, s3)
     if val.ty is TUPLE or val.ty is PY:
         return None
+    lifted = lift_fresh(mark, [j], list(s3.pc[n0:]) + [val.term])      # call results etc. created per element depend on the index
+    facts, vterm = lifted[:-1], lifted[-1]
     q = V(fresh("mapseq", Ref), SeqT(val.ty))
     for f in s2.pc[len(st.pc):]:
         st.assume(f)
-    for f in s3.pc[n0:]:
+    for f in facts:
         st.assume(z3.ForAll([j], z3.Implies(z3.And(0 <= j, j < n), f)))
     st.assume(q.term != NONE)
     st.assume(seq_len(q.term) == n)
     st.assume(n >= 0)
-    st.assume(z3.ForAll([j], z3.Implies(z3.And(0 <= j, j < n), seq_at(q.term, j, val.ty) == val.term)))
+    st.assume(z3.ForAll([j], z3.Implies(z3.And(0 <= j, j < n), seq_at(q.term, j, val.ty) == vterm)))
     return q
 
 
@@ -1492,19 +1550,23 @@ def _b_set(model, ex, args, kwargs, st, node):
         if kind is None:
             raise Unsupported("set(genexp) over a concrete iterable")
         j = fresh("sj", z3.IntSort())
+        from .smt import FRESH_LOG, lift_fresh
+        mark = len(FRESH_LOG)
         s3 = s2.fork()
         ex.assign(comp.target, at(j), s3)
         n0 = len(s3.pc)
         val = ex.ev(gn.elt, s3)
         ety = val.ty
+        lifted = lift_fresh(mark, [j], list(s3.pc[n0:]) + [val.term])
+        facts, vterm = lifted[:-1], lifted[-1]
         res = V(fresh("setcomp", Ref), SetT(ety))
         x = z3.Const("sx", ety.sort())
-        for f in s3.pc[n0:]:
+        for f in facts:
             st.assume(z3.ForAll([j], z3.Implies(z3.And(0 <= j, j < n), f)))
         for f in s2.pc[len(st.pc):]:
             st.assume(f)
         st.assume(res.term != NONE)
-        st.assume(z3.ForAll([x], set_mem(res.term, x, ety) == z3.Exists([j], z3.And(0 <= j, j < n, val.term == x))))
+        st.assume(z3.ForAll([x], set_mem(res.term, x, ety) == z3.Exists([j], z3.And(0 <= j, j < n, vterm == x))))
         return res
     if isinstance(g.ty, SeqT) or isinstance(g.ty, MapT) or isinstance(g.ty, SetT):
         # set(seq) / set(mapping) (its keys) / set(set): membership characterised pointwise
@@ -1513,7 +1575,10 @@ def _b_set(model, ex, args, kwargs, st, node):
         x = z3.Const("sx", ety.sort())
         j = fresh("sj", z3.IntSort())
         st.assume(res.term != NONE)
-        if isinstance(g.ty, SeqT):
+        if isinstance(g.ty, SeqT) and z3.is_app(g.term) and g.term.decl().name() == "map.keys" and g.term.num_args() == 1:
+            # set(m.keys()): membership is key presence (no detour through the key sequence)
+            st.assume(z3.ForAll([x], set_mem(res.term, x, ety) == map_has(g.term.arg(0), x, ety)))
+        elif isinstance(g.ty, SeqT):
             st.assume(z3.ForAll([x], set_mem(res.term, x, ety) == z3.Exists([j], z3.And(0 <= j, j < seq_len(g.term), seq_at(g.term, j, ety) == x))))
         elif isinstance(g.ty, MapT):
             st.assume(z3.ForAll([x], set_mem(res.term, x, ety) == map_has(g.term, x, ety)))
